@@ -127,13 +127,15 @@ CLAIMED = {
         text="Coq theorems for all (top, bottom) in u16 x u16, every framebuffer height 1..65535, both build profiles, any driver state: exactly "
              "one command 0x33 whose three big-endian areas sum to the framebuffer height, top/bottom unchanged when they fit, all-fixed "
              "fallback otherwise, no panic / wrap (lia); scroll offset passed through big-endian; the reference controller decodes these values. "
-             "Correspondence: boundary grid + random pairs, debug and release.",
+             "Correspondence: boundary grid + random pairs, debug and release, at the Interface boundary and below the real SPI (2..7-byte buffers) / "
+             "parallel transports with the parameters decoded from the pin log.",
         note="hand-written model of Display::set_vertical_scroll_region / _offset (src/lib.rs) after the fix: commit for F3.",
         tech="machine-checked proof in Coq (lia over Z) + differential correspondence", ref="DESIGN.md §5 C16"),
     "C17": dict(
         text="Coq theorems over the regenerated init programs: with a reset pin the trace is low, >= 10 us, high, then only bus traffic (no further "
              "pin edge, no software reset); without, software reset is the first bus event, exactly once; refusal sends nothing but the reset. "
-             "Correspondence: real init runs with reset pin, delay source and bus on one timeline, plus post-init programs.",
+             "Correspondence: real init runs with reset pin, delay source and bus on one timeline, plus post-init programs, pin-level runs over the "
+             "real transports, and an init retried over the same transport object after a faulted first attempt.",
         note="Builder::init reset prefix hand-modelled (src/builder.rs:177-189), model programs translated; virtual time for the 10 us pulse.",
         tech="machine-checked proof in Coq over a translator-regenerated model + differential correspondence", ref="DESIGN.md §5 C17"),
     "C09": dict(
@@ -152,7 +154,8 @@ CLAIMED = {
         text="Coq theorems: rotating / flipping an orientation shows the pre-rotated / pre-mirrored picture (geometric identities over all sizes, "
              "offsets, points, by lia per orientation); closure of words of any length (induction), group laws; try_from_degree characterised for "
              "EVERY integer angle (so all 2^32 i32 values) with no overflow. Correspondence: exhaustive words <= 3, random long words, boundary + "
-             "random angles, range checksums; oracle decides the expected orientation by geometry alone.",
+             "random angles, range checksums; oracle decides the expected orientation by geometry alone; plus Displays whose orientation is extended "
+             "by words at run time, picture decoded from the bus against spec_cell.",
         note="hand-written model of src/options/orientation.rs; spec_cell (rotate cw, mirror, shift) is the specification of 'shows'.",
         tech="machine-checked proof in Coq (lia, case analysis, induction over words) + differential correspondence", ref="DESIGN.md §5 C15"),
     "C18": dict(
